@@ -302,7 +302,7 @@ def run(ctx):
                           dict(rep, prefix=G.xwire(ops[: j + 1])[-1500:], impl=a[:2000], model=b[:2000]))
         else:
             sagree += 1
-        for msg in G.oracle_special(ops, A)[:2]:
+        for msg in G.oracle_special(ops, A, request_object=(KIND[ob] == "req"))[:2]:
             ctx.violation("store law broken on the implementation (%s, %s.http, %s): %s" % (sc, ob, label, msg), dict(rep, law=msg, impl=a[:2000]))
 
     # ------------------------------------------------------------ field.go functions vs the scanner
